@@ -57,7 +57,7 @@ OPQ_MODELS['stored'] = {'__isinstance__': {}}
 OPQ_MODELS['scalar'] = {'__isinstance__': {}, '__notnone__': True}
 
 CONTRACTS['Attribute.representation_code'] = dict(
-    props=['C05', 'C14'], kind='get', self_fields={'_representation_code': f'enumv:{RC}?', '_value': 'opq:stored'}, params={}, returns=f'enumv:{RC}?',
+    props=['C05', 'C14'], kind='get', inline_in_callers=True, self_fields={'_representation_code': f'enumv:{RC}?', '_value': 'opq:stored'}, params={}, returns=f'enumv:{RC}?',
     stubs={'inferred_representation_code': dict(returns=f'enumv:{RC}?', raises=True, pure=True)},
     ensures=[('explicit-code-else-the-code-inferred-from-the-CURRENT-value',
               'result == (self._representation_code if self._representation_code is not None else self.inferred_representation_code)'),
@@ -84,3 +84,50 @@ CONTRACTS['FrameItem._setup_frame_params_from_data'] = dict(
              ('row-number-index-max-is-the-number-of-rows-written', f'implies(self.index_type._value is None and old(self.index_max._value) is None, self.index_max._value == converted(self.index_max, {IDX}.shape[0]))'),
              ('index-min-is-the-minimum-of-the-index-rows-written', f'implies(self.index_type._value is not None and old(self.index_min._value) is None, self.index_min._value == converted(self.index_min, {IDX}.min()))'),
              ('index-max-is-the-maximum-of-the-index-rows-written', f'implies(self.index_type._value is not None and old(self.index_max._value) is None, self.index_max._value == converted(self.index_max, {IDX}.max()))')])
+
+# ---------------------------------------------------------------------------------------------- per-subtype converters (C05 step 3)
+YES = "('1', 'true', 't', 'yes', 'y')"
+NO = "('0', 'false', 'f', 'no', 'n')"
+CONTRACTS.update({
+ 'StatusAttribute.convert_status[int]': dict(
+    target='StatusAttribute.convert_status', props=['C05', 'C12'], params={'val': 'int'}, returns='int',
+    raises={'ValueError': 'val != 0 and val != 1'}, ensures=[('status-kept', 'result == val')]),
+ 'StatusAttribute.convert_status[bool]': dict(
+    target='StatusAttribute.convert_status', props=['C05'], params={'val': 'bool'}, returns='int',
+    ensures=[('true-is-1-false-is-0', 'result == (1 if val else 0)')]),
+ 'FrameItem.convert_encrypted[int]': dict(
+    target='FrameItem.convert_encrypted', props=['C05', 'C12'], params={'value': 'int'}, returns='int',
+    raises={'ValueError': 'value != 0 and value != 1'}, ensures=[('kept', 'result == value')]),
+ 'FrameItem.convert_encrypted[bool]': dict(
+    target='FrameItem.convert_encrypted', props=['C05'], params={'value': 'bool'}, returns='int', ensures=[('flag', 'result == (1 if value else 0)')]),
+ 'FrameItem.convert_encrypted[str]': dict(
+    target='FrameItem.convert_encrypted', props=['C05', 'C12'], params={'value': 'str'}, returns='int',
+    raises={'ValueError': f'value.lower() not in {YES} and value.lower() not in {NO}'},
+    ensures=[('yes-words-are-1-no-words-are-0', f'result == (1 if value.lower() in {YES} else 0)')]),
+ 'NumericAttribute._int_parser[int]': dict(
+    target='NumericAttribute._int_parser', props=['C05'], params={'value': 'int'}, returns='int', ensures=[('integers-exactly', 'result == value')]),
+ 'NumericAttribute._float_parser[int]': dict(
+    target='NumericAttribute._float_parser', props=['C05'], params={'value': 'int'}, returns='opq:float', ensures=[('the-float-of-the-number', 'result == float(value)')]),
+ 'TextAttribute._check_string': dict(
+    props=['C05', 'C12'], params={'v': 'oneof[str,int]'}, returns='str',
+    raises={'TypeError': 'not isinstance(v, str)'}, ensures=[('text-exactly', 'result == v')]),
+ 'EFLRAttribute._convert_value': dict(
+    props=['C05', 'C07'], self_fields={'_object_class': 'oneof[none,cls:ZoneSet]'},
+    params={'v': 'oneof[obj:ZoneItemT,obj:NamedT,str]'}, returns='obj:ZoneItemT',
+    raises={'TypeError': 'not isinstance(v, (ZoneItem if self._object_class is not None else EFLRItem))'},
+    ensures=[('a-reference-is-the-referenced-object-itself', 'result is v')]),
+})
+for _mv in (True, False):
+    for _shape, _spec in (('scalar', 'opq:uval'), ('list-of-2', 'list[opq:uval]*2'), ('tuple-of-2', 'tuple[opq:uval,opq:uval]')):
+        if _mv:
+            exp = '[conv(value), ]' if _shape == 'scalar' else '[conv(value[0]), conv(value[1])]'
+        else:
+            if _shape != 'scalar':
+                continue
+            exp = 'conv(value)'
+        CONTRACTS[f'Attribute.convert_value[multivalued={_mv},{_shape}]'] = dict(
+            target='Attribute.convert_value', props=['C05'],
+            self_fields={'_multivalued': f'const:{_mv}', '_multidimensional': 'const:False', '_converter': 'stubfn1'},
+            params={'value': _spec}, returns='opq:stored', may_raise=['StubException'],
+            ensures=[('each-value-converted-once-in-order', f'result == {exp}')])
+SPEC_UFS['conv'] = (('opq',), 'opq')
